@@ -317,6 +317,30 @@ impl<ChannelSigner: EcdsaChannelSigner> OnchainTxHandler<ChannelSigner> {
 			channel_transaction_parameters, claimable_outpoints,
 			onchain_events_awaiting_threshold_conf
 		);
+		if self.onchain_events_awaiting_threshold_conf != o.onchain_events_awaiting_threshold_conf {
+			let (a, b) =
+				(&self.onchain_events_awaiting_threshold_conf, &o.onchain_events_awaiting_threshold_conf);
+			if a.len() != b.len() {
+				out.push("onchain_events_awaiting_threshold_conf:len".to_string());
+			}
+			for (x, y) in a.iter().zip(b.iter()) {
+				if x.txid != y.txid || x.height != y.height || x.block_hash != y.block_hash {
+					out.push("onchain_event:txid/height/block_hash".to_string());
+				}
+				match (&x.event, &y.event) {
+					(
+						OnchainEvent::ContentiousOutpoint { package: p },
+						OnchainEvent::ContentiousOutpoint { package: q },
+					) if p != q => out.push(format!(
+						"ContentiousOutpoint.package:{:?} ({} input(s))",
+						p.verif_diff(q),
+						p.outpoints().len()
+					)),
+					(x, y) if x != y => out.push("onchain_event:event".to_string()),
+					_ => {},
+				}
+			}
+		}
 		if self.pending_claim_requests != o.pending_claim_requests {
 			for (id, p) in self.pending_claim_requests.iter() {
 				match o.pending_claim_requests.get(id) {
